@@ -231,7 +231,7 @@ macro_rules! sink_row { ($e:ident) => { sinks::<$e> as RandomFn } }
 
 fn values(g: &mut Gen, st: &mut Stats) -> CaseResult {
     static T: std::sync::OnceLock<Vec<RandomFn>> = std::sync::OnceLock::new();
-    let t = T.get_or_init(|| crate::for_each_entry!(sink_row));
+    let t = T.get_or_init(|| crate::for_each_core_entry!(sink_row));
     t[g.below(t.len())](g, st)
 }
 
